@@ -69,6 +69,16 @@ func symStrBinop(op token.Token, x, y value) value {
 		}
 		return mkSym(types.Bool, t)
 	}
+	switch op {
+	case token.LSS:
+		return mkSym(types.Bool, strLess(xb, yb))
+	case token.GTR:
+		return mkSym(types.Bool, strLess(yb, xb))
+	case token.LEQ:
+		return mkSym(types.Bool, tNot(strLess(yb, xb)))
+	case token.GEQ:
+		return mkSym(types.Bool, tNot(strLess(xb, yb)))
+	}
 	panic(unsupported("string binop " + op.String() + " on symbolic string"))
 }
 
@@ -78,4 +88,18 @@ func runeToStr(x symv) value {
 		panic(unsupported("non-ASCII symbolic rune to string"))
 	}
 	return symstr{symv{types.Uint8, x.t}}
+}
+
+// strLess is the lexicographic order on byte strings as one term.
+func strLess(a, b []value) *Term {
+	n := len(a)
+	if len(b) < n {
+		n = len(b)
+	}
+	t := tBool(len(a) < len(b))
+	for i := n - 1; i >= 0; i-- {
+		x, y := termOf(a[i]), termOf(b[i])
+		t = tOr(tCmp("<", x, y), tAnd(tCmp("=", x, y), t))
+	}
+	return t
 }
